@@ -10,7 +10,7 @@ COQCLS = {'Root': 'CRoot', 'Node': 'CNode', 'Array': 'CArray', 'PointList': 'CPl
 
 
 # ------------------------------------------------------------------ specs -> live objects
-def make_obj(spec):
+def make_obj(spec, share=None):
     import emdfile
     c = spec['cls']
     if c == 'Root':
@@ -29,22 +29,28 @@ def make_obj(spec):
         raise ValueError(c)
     for ent in spec.get('mds', []):
         k, t = ent[0], ent[1]
-        md = emdfile.Metadata(name=k, data={'tok': t})
-        o.metadata = md
-        if len(ent) > 2:
+        if len(ent) > 3 and ent[3] == 'shared' and share is not None and t in share:
+            md = share[t]             # ONE Metadata instance held in several places (by several nodes, or under several keys)
+        else:
+            md = emdfile.Metadata(name=k, data={'tok': t})
+            if share is not None:
+                share[t] = md
+        o._metadata[k] = md
+        if len(ent) > 2 and ent[2] is not None:
             md.name = ent[2]          # renamed after it was attached: key != name
     return o
 
 
-def build(spec, parent=None, reg=None, path=()):
+def build(spec, parent=None, reg=None, path=(), share=None):
     """spec: {'cls','name','tok','rank','mds':[[k,tok]],'kids':[...]} -> emdfile object, built top-down"""
-    o = make_obj(spec)
+    share = {} if share is None else share
+    o = make_obj(spec, share)
     if parent is not None:
         parent.add_to_tree(o)
     if reg is not None:
         reg[path] = o
     for ks in spec.get('kids', []):
-        build(ks, o, reg, path + (ks['name'],))
+        build(ks, o, reg, path + (ks['name'],), share)
     return o
 
 
@@ -549,6 +555,12 @@ def rand_tree(rng, rootname, n_nodes, names=None, classes=('Node', 'Array', 'Poi
                 'rank': rng.choice([1, 1, 2, 3, 0]) if c == 'Array' else 0, 'mds': [], 'kids': []}
         if rng.random() < md_p:
             node['mds'] = [[k, fresh_tok()] for k in rng.sample(['m1', 'm2', 'm3'], rng.choice([1, 1, 2]))]
+        if root['mds'] and rng.random() < 0.08:
+            # the very Metadata instance the root holds, attached to this node too under the same key
+            m = rng.choice(root['mds'])
+            if len(m) < 4 and m[0] not in {x[0] for x in node['mds']}:
+                m[2:] = [m[2] if len(m) > 2 else None, 'shared']
+                node['mds'].append([m[0], m[1], m[2], 'shared'])
         parent['kids'].append(node)
         nodes.append((node, depth + 1))
     return root
